@@ -14,7 +14,7 @@ from .table import Tracer
 from .rules import canon_guard
 from . import flow
 
-ITER_BUILTINS = {'list', 'tuple', 'set', 'frozenset', 'sorted', 'iter', 'next', 'enumerate', 'sum', 'any', 'all', 'bytes', 'b"".join', "b''.join", 'len', 'repr', 'str'}
+ITER_BUILTINS = {'list', 'tuple', 'set', 'frozenset', 'sorted', 'iter', 'next', 'enumerate', 'sum', 'any', 'all', 'b"".join', "b''.join"}
 
 
 class Esc(object):
@@ -63,6 +63,8 @@ class Escape(object):
             f = e.func
             if isinstance(f, ast.Name) and class_args and f.id in class_args:
                 ci = class_args[f.id]
+                if not isinstance(ci, ClassInfo):
+                    return None, None
                 return ci.name, ci
             v = self.repo.fold(f, fi.module, cls=fi.cls)
             if isinstance(v, ClassRef):
@@ -73,7 +75,7 @@ class Escape(object):
                 return f.id, None
             return None, None
         if isinstance(e, ast.Name):
-            if class_args and e.id in class_args:
+            if class_args and e.id in class_args and isinstance(class_args[e.id], ClassInfo):
                 return class_args[e.id].name, class_args[e.id]
             v = self.repo.fold(e, fi.module, cls=fi.cls)
             if isinstance(v, ClassRef):
@@ -302,6 +304,14 @@ class Escape(object):
                     nca[pn] = v.info
                 elif isinstance(a, ast.Name) and ca and a.id in ca:
                     nca[pn] = ca[a.id]
+                elif isinstance(a, ast.Name):
+                    # function-valued argument: a closure of the caller (err_raiser) passed to a helper
+                    cur = fi
+                    while cur is not None:
+                        if a.id in cur.nested:
+                            nca[pn] = cur.nested[a.id]
+                            break
+                        cur = cur.parent
             # *args forwarding of a class (err_raiser(cls, *args) -> cls(*args, ...)): keep the caller's class args
             ks = {}
             for pn, a in b.items():
